@@ -152,6 +152,7 @@ func runC38(t *testing.T, tp *simrt.Tape, keepTrace bool) hx.Result {
 	}
 	// optionally a killed build with the new options in between
 	killed := ""
+	firstShardInstalled := false
 	if tp.Gen(3) == 0 && (contentChange || metaChange) {
 		p0 := simos.NewProc("indexer", simos.Plan{})
 		probe := filepath.Join(base, "probe")
@@ -171,6 +172,12 @@ func runC38(t *testing.T, tp *simrt.Tape, keepTrace bool) hx.Result {
 			if !completed {
 				res.Faults["kill"]++
 				killed = fmt.Sprintf("build with the new options killed before op %d (%s %s)", k.K, k.Name, filepath.Base(k.Path))
+				// did the dying build already install its first shard (the one IndexState reads)?
+				for _, o := range simos.StateOf(p).Log {
+					if o.Mut && o.Name == "rename" && o.K < k.K && strings.HasSuffix(filepath.Base(o.Path), ".00000.zoekt") {
+						firstShardInstalled = true
+					}
+				}
 			}
 		}
 	}
@@ -186,17 +193,23 @@ func runC38(t *testing.T, tp *simrt.Tape, keepTrace bool) hx.Result {
 		return hx.Result{HarnessErr: "fresh build: " + err.Error()}
 	}
 	want := observe(fresh)
-	sub := "no-kill"
+	what := "content"
+	if len(changes) > 0 {
+		what = strings.Join(changes, "+")
+	}
+	sub := "no-kill|" + what
 	if killed != "" {
-		sub = "after-killed-build"
+		// The narrow class "the killed build had already renamed its first shard
+		// into place" is the C12 multi-file install window seen through
+		// IndexState (which reads the first shard only).
+		sub = "kill-before-first-shard-install"
+		if firstShardInstalled {
+			sub = "kill-after-first-shard-install"
+		}
 	}
 	docsEqual := fmt.Sprint(cur.Docs) == fmt.Sprint(want.Docs) && len(cur.Unloadable) == 0
 	if skip && !docsEqual {
-		what := "content"
-		if len(changes) > 0 {
-			what = strings.Join(changes, "+")
-		}
-		res.Violations = append(res.Violations, hx.Violation{Sig: "skipped-although-index-differs-from-fresh-build|" + what + "|" + sub,
+		res.Violations = append(res.Violations, hx.Violation{Sig: "skipped-although-index-differs-from-fresh-build|" + sub,
 			Detail: fmt.Sprintf("%s; indexed docs %v; a fresh build gives %v", desc, briefDocs(cur.Docs), briefDocs(want.Docs))})
 	}
 	if killed == "" && !contentChange && metaChange && state != index.IndexStateMeta {
